@@ -146,7 +146,7 @@ func genRetryCase(r *rand.Rand) (retryCfg, []step) {
 }
 
 func checkC02(rep *vk.Report) {
-	rep.Rule = "(A) sequential: maxRetries/maxAttempts in {0,1,2,3,5,unlimited} x handle-condition lists x abort-condition lists x ReturnLastFailure x scripts of up to maxRetries+3 outcomes; the invocation count must equal the index of the first stopping outcome (non-failure, abort match, or failures = maxRetries+1) and the returned value must be the stopping outcome unchanged, ExceededError{last} or the last outcome; plus WithMaxDuration cases with sleeping steps judged one-sidedly from time.Since(exec.StartTime()) sampled in the function. Plus result conditions on a pointer-bearing result type with separately allocated deep-equal values. (B) concurrent: 16-32 goroutines x many executions (sync and async) sharing ONE policy and executor, each with its own script and expectation, under the race detector. Non-trivial: at least one retry, abort or exhaustion; distinct by (maxRetries, handle list, abort list, return-last, outcome sequence, ending)."
+	rep.Rule = "(A) sequential: maxRetries/maxAttempts in {0,1,2,3,5,unlimited} x handle-condition lists x abort-condition lists x ReturnLastFailure x scripts of up to maxRetries+3 outcomes; the invocation count must equal the index of the first stopping outcome (non-failure, abort match, or failures = maxRetries+1) and the returned value must be the stopping outcome unchanged, ExceededError{last} or the last outcome; plus WithMaxDuration cases with sleeping steps judged one-sidedly from time.Since(exec.StartTime()) sampled in the function. Plus result conditions on a pointer-bearing result type with separately allocated deep-equal values. (B) concurrent: 16-32 goroutines x many executions (sync and async) sharing ONE policy and executor, each with its own script and expectation, under the race detector. (H) Hedge(Retry(fn)) with a slow first attempt and hedged attempts failing at once: at most maxHedges+1 first invocations plus maxRetries re-invocations in total, Retries() and OnRetry <= maxRetries. Non-trivial: at least one retry, abort or exhaustion; distinct by (maxRetries, handle list, abort list, return-last, outcome sequence, ending)."
 	rep.Assumptions = []string{
 		"A1: an abort-matching failure on the attempt that exhausts the budget may end as ExceededError or unchanged",
 		"A6: AbortOnResult on outcomes that also carry an error is not judged",
@@ -178,6 +178,12 @@ func checkC02(rep *vk.Report) {
 		c02Deep(rep, nA+nD+900000000+i)
 	})
 	// (B) concurrent sharing
+	vk.Parallel(scale(rep, 400, 20000), 32, func(i int) {
+		if rep.Skip(950000000 + i) {
+			return
+		}
+		c02HedgedBudget(rep, 950000000+i)
+	})
 	rounds := scale(rep, 12, 200)
 	for round := 0; round < rounds; round++ {
 		base := nA + nD + round*100000
